@@ -321,7 +321,7 @@ Lemma setmetatable_protected_lemma n fr r m rest s :
   is_nil (metafield s (VTab r) s_mm_metatable) = false ->
   is_err_unchanged s (builtin_call (S n) fr BSetMt (VTab r :: m :: rest) s).
 Proof.
-  intros H. cbn [builtin_call nth]. unfold bindM, getmeta. cbn [bind]. rewrite H. cbn [negb]. constructor.
+  intros H. cbn [builtin_call nth tl]. unfold bindM, getmeta. cbn [bind]. rewrite H. cbn [negb]. constructor.
 Qed.
 
 Lemma setmetatable_sets_lemma n fr r m rest s :
@@ -329,5 +329,10 @@ Lemma setmetatable_sets_lemma n fr r m rest s :
   builtin_call (S n) fr BSetMt (VTab r :: VTab m :: rest) s =
   Ret [VTab r] (with_tabs s (set_nth (tabs s) r (mkTab (t_kv (tab_of s r)) (Some m)))).
 Proof.
-  intros H. cbn [builtin_call nth]. unfold bindM, getmeta. cbn [bind]. rewrite H. reflexivity.
+  intros H. cbn [builtin_call nth tl]. unfold bindM, getmeta. cbn [bind]. rewrite H. reflexivity.
 Qed.
+
+(* setmetatable(t) with the second argument missing is an error and changes nothing *)
+Lemma setmetatable_missing_lemma n fr r s :
+  builtin_call (S n) fr BSetMt [VTab r] s = Err (VFault 6 (frames_line fr)) s.
+Proof. reflexivity. Qed.
